@@ -302,4 +302,34 @@ def c12_4(c: Ctx) -> None:
             c.fail(u, f'returns {rv[:60]}', 'the accessor core does not return exactly the included results', node=r)
 
 
+
+@ob('C12.5', 'ORD', 'the declared result type of an event is resolved per class: an event_result_type set explicitly in the class definition is consulted before the class-level '
+    'cache is read (the cache attribute is inherited by subclasses, so reading it first would validate a subclass against its parent\'s type)')
+def c12_5(c: Ctx) -> None:
+    u = c.unit(MOD, 'BaseEvent._set_event_result_type_from_generic_arg')
+    g = c.cfg(u)
+    cache_reads = [n for n in g.live_nodes() if n.kind in ('if', 'stmt', 'return') and any(isinstance(x, ast.Attribute) and x.attr == '_event_result_type_cache' and isinstance(x.ctx, ast.Load) for h in q.node_exprs(n) for x in ast.walk(h))]
+    if not cache_reads:
+        c.ok(where(u), 'no class-level cache of the result type is read')
+        return
+    explicit = [n for n in g.live_nodes() if n.kind in ('if', 'stmt') and any(isinstance(x, (ast.Subscript, ast.Call)) and 'model_fields' in U(x) and 'event_result_type' in U(x) for h in q.node_exprs(n) for x in ast.walk(h))]
+    if not explicit:
+        c.fail(u, 'the class-level result-type cache is read but an explicit event_result_type of the class is never consulted', "an event class that re-declares event_result_type is validated against an inherited cached type")
+        return
+    eid = {n.id for n in explicit}
+    from sa.cfg import search
+
+    for cr in cache_reads:
+        p = search([(g.entry, ())], is_target=lambda n, d: n is cr, is_barrier=lambda n, d: n.id in eid, edge_ok=lambda n, e, d: None if e.is_exc else d)
+        if p is None:
+            c.ok(where(u, cr.ast), 'the cache is read only after the explicit class-level declaration was consulted')
+        else:
+            c.fail(u, 'the inherited class-level cache is read before the explicit event_result_type of the class is consulted', "a subclass that re-declares event_result_type is validated against its parent's cached type when the parent was instantiated first: conforming values become errors, non-conforming ones complete", node=cr.ast, witness=c.path(g.entry, p))
+    # the explicit declaration, when present, decides (returns) before the cache / generic extraction
+    wr = [w for w in c.cg.writes.get(u.key, []) if w.attr == '_event_result_type_cache']
+    for w in wr:
+        if U(w.base) != u.params()[0]:
+            c.fail(u, f'cache written on {U(w.base)} instead of the class being instantiated', 'the result type cache is shared between unrelated classes', node=w.node)
+
+
 OBLIGATIONS = ob.obs
